@@ -4,7 +4,7 @@ import re
 import z3
 
 from .values import *  # noqa: F401,F403
-from .engine import (Path, Unsupported, ContractError, PathEnd, PyRaise, CtlReturn, CtlBreak, CtlContinue, guarded_check)
+from .engine import (Path, Unsupported, ContractError, PathEnd, PyRaise, CtlReturn, CtlBreak, CtlContinue, guarded_check, forked_check)
 
 DROPPED_CALL_PREFIXES = ("logger.",)            # calls dropped by the mechanical extraction (DESIGN 3.2)
 DROPPED_METHODS = {"close_out"}                   # progress-bar traffic
@@ -506,6 +506,8 @@ class Exec(Path):
         for j, inv in enumerate(invs):
             props, lab, expr = self._clause(inv, fn)
             self.oblige(f"{label}:{lab or j}", "loop-establish", self.eval_contract_expr(expr), props)
+        for tgt, goal in self.shapes_goal(spec.get("shapes", {}), getattr(self, "variant", 0)):
+            self.oblige(f"{label}:shape of {tgt}", "loop-establish", goal, fn["contract"].props if fn["contract"] else [])
         if idxname:
             pass
         # 2. havoc
@@ -513,6 +515,7 @@ class Exec(Path):
         if idxname:
             self.assume(z3.And(self.env[idxname].t >= 0, self.env[idxname].t <= bound))
         # 3. assume invariant
+        self.shapes_assume(spec.get("shapes", {}), getattr(self, "variant", 0), label)
         for inv in invs:
             props, lab, expr = self._clause(inv, fn)
             self.assume(self.eval_contract_expr(expr))
@@ -559,6 +562,8 @@ class Exec(Path):
             for j, inv in enumerate(invs):
                 props, lab, expr = self._clause(inv, fn)
                 self.oblige(f"{label}:{lab or j}", "loop-preserve", self.eval_contract_expr(expr), props)
+            for tgt, goal in self.shapes_goal(spec.get("shapes", {}), getattr(self, "variant", 0)):
+                self.oblige(f"{label}:shape of {tgt}", "loop-preserve", goal, fn["contract"].props if fn["contract"] else [])
             if dec0 is not None:
                 dec1 = self.eval_contract_expr(spec["decreases"], want_bool=False)
                 self.oblige(f"{label}:decreases", "loop-decreases", z3.And(dec0.t >= 0, dec1.t < dec0.t), [])
@@ -1154,6 +1159,12 @@ class Exec(Path):
 
     def seq_term(self, obj):
         """(term, rebuild) for sliceable values"""
+        if isinstance(obj, VBox) and self.pure:
+            t = obj.t
+            det = [z3.simplify(f(t)) for f in (PV.is_PBytes, PV.is_PStr, PV.is_PList, PV.is_PTuple)]
+            if not any(z3.is_true(d) for d in det):
+                # specification context, type undetermined: x[a:b] is read as a slice of bytes (clauses guard with is_bytes(x))
+                return PV.yval(t), VBytes
         if isinstance(obj, VBox):
             obj = self.unbox(obj)
         if isinstance(obj, VBytes):
@@ -1868,6 +1879,11 @@ class Exec(Path):
                                 note=f"line {getattr(self, 'cur_line', '?')}")
             old = self.snapshot()
             vi = c.select_variant(self, bound)
+            vreq = c.extra.get("variant_requires")
+            for j, r in enumerate(list(vreq[vi]) if vreq else []):
+                props, lab, expr = self._clause(r, self.func_stack[-1])
+                self.oblige(f"call {info.qualname}:variant{vi}:{lab or j}", "pre@call", self.eval_contract_expr(expr), props,
+                            note=f"line {getattr(self, 'cur_line', '?')}")
             # exceptional outcomes
             for exc_name, spec in c.raises.items():
                 when = spec.get("when")
@@ -1915,6 +1931,8 @@ class Exec(Path):
                     self.env[used[0]] = trig
                     self.assume(self.eval_contract_expr(expr))
             self.assuming_post -= 1
+            self.old = old
+            self.shapes_assume(c.extra.get("shapes_out", {}), vi, info.name)
             for ex in c.extra.get("post_lemmas", []):
                 self.assume(self.eval_contract_expr(ex))
             for gname, gexpr in c.extra.get("ghost_out", {}).items():
@@ -1926,7 +1944,7 @@ class Exec(Path):
             if post:
                 post(self, bound, result)
             self.old = saved_old
-            if guarded_check(self.solver, 2000) == z3.unsat:
+            if forked_check(self.solver, 2000) == z3.unsat:
                 # the callee's postcondition contradicts what is known at the call site (typically a missing `modifies`):
                 # continuing would make everything after this call vacuously true
                 raise ContractError(f"postcondition of {info.qualname} is contradictory at this call site (missing modifies?)")
@@ -1958,6 +1976,53 @@ class Exec(Path):
         else:
             raise ContractError(f"ghost type {typ} not supported at call sites")
         return out
+
+    # -- object shapes: "after this call / at this loop head the target is an object of one of these classes" -----------
+    def shapes_goal(self, shapes, variant):
+        """[(target, Bool term)]: the actual object at each target has one of the declared shapes, with its `when` and wf clauses"""
+        out = []
+        for target, alts in shapes.items():
+            actual = self.eval(ast.parse(target, mode="eval").body)
+            disj = []
+            for alt in alts:
+                if "variants" in alt and variant not in alt["variants"]:
+                    continue
+                typ = alt.get("type")
+                if isinstance(typ, dict) and not self.shape_matches(actual, typ):
+                    continue
+                conj = []
+                if alt.get("when"):
+                    conj.append(self.eval_contract_expr(alt["when"]))
+                for cl in alt.get("wf", []):
+                    conj.append(self.eval_contract_expr(cl))
+                disj.append(z3.And(conj) if conj else z3.BoolVal(True))
+            out.append((target, z3.Or(disj) if disj else z3.BoolVal(False)))
+        return out
+
+    def shapes_assume(self, shapes, variant, label):
+        """branch over the declared alternatives of each target, install a typed symbolic object and assume its clauses"""
+        for target, alts in shapes.items():
+            alts = [a for a in alts if "variants" not in a or variant in a["variants"]]
+            chosen = None
+            for k, alt in enumerate(alts):
+                if alt.get("when"):
+                    cond = self.eval_contract_expr(alt["when"])
+                elif k == len(alts) - 1:
+                    cond = z3.BoolVal(True)
+                else:
+                    cond = self.fresh(f"shape_{label}_{k}", B)
+                if self.branch(cond):
+                    chosen = alt
+                    break
+            if chosen is None:
+                raise PathEnd()
+            typ = chosen.get("type")
+            if typ is not None and typ != "keep":
+                node = ast.parse(target, mode="eval").body
+                node.ctx = ast.Store()
+                self.assign(node, self.make_symbolic(f"{label}_{target.split('.')[-1]}", typ))
+            for cl in chosen.get("wf", []):
+                self.assume(self.eval_contract_expr(cl))
 
     def havoc_target(self, m):
         node = ast.parse(m, mode="eval").body
